@@ -336,7 +336,11 @@ int main (int argc, char *argv[]) {
                 }
             }
         }
-        write_data(zck, data + start, in_size - (start + matched));
+        /* matched also counts bytes held back from earlier blocks, so it can
+         * be more than what is left of this one: then all of it is held back */
+        ssize_t tail = in_size - (start + matched);
+        if(tail > 0)
+            write_data(zck, data + start, tail);
     }
     /* The start of a split string at the very end of the input was held back
      * in case the rest followed: it is ordinary data after all */
